@@ -1,8 +1,6 @@
 package sqlgen
 
 import (
-	"fmt"
-
 	"pgregory.net/rapid"
 )
 
@@ -419,5 +417,3 @@ func (g *gen) aggregate(sc *scope, d int) eo {
 	}
 	return eo{out, pAtom}
 }
-
-var _ = fmt.Sprint
